@@ -1311,7 +1311,8 @@ MANIFEST = {
                    "derivative() gives identically zero blocks for both end images for every band of >= 2 images (partial for 'end "
                    "images never move': the optimiser itself is measured); an adaptive update is skipped exactly when the peak equals the "
                    "higher end point (Energy.__eq__), otherwise constants lie in [min_k, max_k], are monotone, strictly increasing at/above "
-                   "E_ref, min_k below it and max_k at the top; interpolation keeps the end points, has "
+                   "E_ref, min_k below it and max_k at the top; a band started with init_k inside the bounds keeps every constant inside them "
+                   "over any sequence of updates; interpolation keeps the end points, has "
                    "exactly n evenly spaced images x_0 + i/(n-1)(x_{n-1}-x_0) and keeps atom order; the maximum image distance "
                    "is the maximum over ALL consecutive pairs; partition's result respects max_delta on every consecutive pair "
                    "and selected atom, keeps the end points and every original image (if it returns).  The tangent/force/adaptive-k definitions are regenerated from "
